@@ -190,7 +190,7 @@ inductive CommitRes
   | err (s : String)
 
 /-- `Txn.Commit` → `commitAndSend` → write path (applied synchronously). Entries are applied
-    `pendingWrites` first, then `duplicateWrites` (the order of `commitAndSend`). -/
+    `duplicateWrites` first, then `pendingWrites` (the order of `commitAndSend`). -/
 def Db.commit (d : Db) (id : Nat) (managedTs : Nat) : Db × CommitRes :=
   match d.findTxn id with
   | none => (d, .err "err:discarded")
@@ -213,7 +213,9 @@ def Db.commit (d : Db) (id : Nat) (managedTs : Nat) : Db × CommitRes :=
           let e := if e.ver == 0 then { e with ver := cts } else e
           let e := if keepTogether then { e with emeta := setBit e.emeta bitTxn } else e
           d.lsmForm e
-        let entries := (t.pending ++ t.dups).map fin
+        -- `duplicateWrites` (overwritten earlier writes) first, then `pendingWrites` (the latest
+        -- write per key): the order of `commitAndSend` since the fix of finding F8
+        let entries := (t.dups ++ t.pending).map fin
         let lsm := { d.lsm with mem := entries.foldl (fun m e => memPut e m) d.lsm.mem }
         let d := { d with lsm := lsm }
         ((d.setTxn t).discardTxn id, .ok cts)
